@@ -50,12 +50,11 @@ requests: v3 messages are self-delimiting, the connection must stay usable.  Lik
 generated v3 message with valid framing that the real ConventionalRequestHandler rejects must
 leave the decoder finished with unused_data = the bytes after it.
 
-NEW, not yet triaged (the check exits 1 on /repo until the coordinator decides; repro
-and tested patch in /var/tmp/imp-C28C29/c29): family
-`v1-bodyless-request-with-buffered-followup-terminates-connection` -- one socket read
-delivers a protocol-1 request without body (e.g. `hello\n`) plus bytes of the next
-request; SmartMedium._push_back(b"") raises AssertionError because the buffer check
-precedes the empty-data check; the connection is terminated, the next request is lost.
+Found by this oracle and fixed in /repo (a5764d7): one socket read delivering a protocol-1
+request without body (e.g. `hello\n`) plus bytes of the next request made
+SmartMedium._push_back(b"") raise AssertionError (buffer check before the empty-data check);
+the connection was terminated and the next request lost.  No family: a plain VIOLATION if it
+returns.
 
 Mutants this check was built against (scratch worktree, each caught by the oracle
 with a concrete input and by T2; H* stayed clean):
@@ -1057,7 +1056,9 @@ def oracle_pipeline(ctx, rng, reqs, style, which):
                         break
             # ... and everything up to and including it was dispatched correctly, nothing after it
             if j is not None and got == exp_upto(j + 1):
-                fam = PUSHBACK
+                # this shape was the finding `v1-bodyless-request-with-buffered-followup-...` of this check, fixed in /repo (a5764d7): no family
+                # any more, a plain VIOLATION if it returns
+                ctx.count("pipeline:former-push-back-shape-failed")
         report(ctx, case, "server medium terminated the connection on %d well-formed back-to-back requests "
                "(dispatched %d)" % (len(reqs), len(got)), fam)
     elif got != exp:
